@@ -7,11 +7,14 @@ pub mod run;
 pub mod sched;
 pub mod c18;
 pub mod c01;
+pub mod c02;
+pub mod den;
 
 /// Dispatches a property id to its check. Returns false for an unknown id.
 pub fn dispatch(id: &str, ctx: &mut ev::Ctx) -> bool {
     match id {
         "C01" => c01::run(ctx),
+        "C02" => c02::run(ctx),
         "C18" => c18::run(ctx),
         _ => return false,
     }
